@@ -2607,10 +2607,8 @@ def gen_reuse(rng: random.Random, tier: str):
         for kind in ag.ACTION_KINDS[algo]:
             masked = kind != "box" and (algo not in ("MADDPG", "MATD3") or kind == "discrete")
             dts = list(REUSE_DTYPES) if masked else [rng.choice(REUSE_DTYPES)]
-            if algo == "DQN":
-                # DQN builds `(1 - mask).bool()` on the torch copy of the mask, which torch refuses for a bool tensor:
-                # bool masks are outside what DQN accepts ("1=legal 0=illegal"); noted by run_reuse, not judged
-                dts = [d for d in dts if d != "bool"]
+            # (DQN used to raise on a bool mask — `(1 - mask).bool()` on a bool tensor; repaired in /repo, finding
+            #  C14-dqn-bool-mask — so bool masks are generated for DQN like for every other algorithm)
             reps = 1 if tier == "quick" else 4
             for rep in range(reps):
                 for i, dt in enumerate(dts):
@@ -2660,8 +2658,8 @@ def run_reuse(chk: Check, cfgs, sink=None) -> int:
             probe.actor.table = torch.zeros((1, 3))
             probe.get_action(sample_obs(probe, "DQN", 1, False, 0), epsilon=0.0, action_mask=np.array([[True, False, True]]))
         except RuntimeError as e:
-            chk.notes.append(f"reuse: DQN.get_action does not accept a bool action mask ({str(e)[:60]}...); every other "
-                             "algorithm does; DQN histories use int8 / int64 / float32 masks")
+            chk.finding("C14-dqn-bool-mask", f"DQN.get_action raised on a bool action mask [[True, False, True]]: {str(e)[:120]}",
+                        {"kind": "probe", "probe": "dqn-bool-mask"})
     for cfg in cfgs:
         try:
             problems, tags = reuse_one(cfg)
